@@ -1,9 +1,10 @@
 #!/bin/sh
-# builds ocaml/C17/model from the extracted gen/c17_model.ml and driver.ml
+# builds ocaml/C17/_build/model from the extracted ocaml/gen/c17_model.ml and driver.ml
+# (all build output stays under ocaml/C17/_build, which is git-ignored)
 set -e
 cd "$(dirname "$0")"
 mkdir -p _build
-cp gen/c17_model.ml gen/c17_model.mli driver.ml _build/
+cp ../gen/c17_model.ml ../gen/c17_model.mli driver.ml _build/
 cd _build
-ocamlfind ocamlopt -O2 -w -a -package str c17_model.mli c17_model.ml driver.ml -o ../model 2>/dev/null || \
-ocamlfind ocamlopt -w -a c17_model.mli c17_model.ml driver.ml -o ../model
+ocamlfind ocamlopt -O2 -w -a -package str c17_model.mli c17_model.ml driver.ml -o model 2>/dev/null || \
+ocamlfind ocamlopt -w -a c17_model.mli c17_model.ml driver.ml -o model
